@@ -476,7 +476,8 @@ def replicate_pairing(case, stripped):
     if len(decoys) == 0:
         decoys = pd.Series([], dtype="str")
     with quiet():
-        return dict(match_decoy(decoys, pd.Series(P["peptide_map"].keys()), rng=case["seed"]))
+        # (sorted keys: /repo fix D25 — the pairing must not depend on the hash-ordered key order of the map)
+        return dict(match_decoy(decoys, pd.Series(sorted(P["peptide_map"].keys())), rng=case["seed"]))
 
 
 # ----------------------------------------------------------------------------
